@@ -11,23 +11,28 @@ pub fn run(run: &RunInfo) -> Summary {
     let depth = if run.thorough() { 5 } else { 4 };
     let all_ops = ops(&["A", "B"]);
     // (max, dangling, first op, code sweep?)
-    let mut work: Vec<(usize, Option<u32>, usize, bool, bool)> = vec![];
+    let mut work: Vec<(usize, Option<u32>, usize, bool, bool, u64)> = vec![];
     for max in 1..=2usize {
         for dangling in [None, Some(7u32)] {
             for first in 0..all_ops.len() {
-                work.push((max, dangling, first, false, false));
+                work.push((max, dangling, first, false, false, 0));
+                // slow terminal: every reply packet takes 45 s / 59 s (inside the 60 s per-packet time-out)
+                if max == 1 {
+                    work.push((max, dangling, first, false, false, 45_000));
+                    work.push((max, dangling, first, false, false, 59_000));
+                }
                 // noisy pass: one deviation of the reply shape per history, at depth - 1
-                work.push((max, dangling, first, false, true));
+                work.push((max, dangling, first, false, true, 0));
             }
         }
     }
     // every end-of-day abort code for the shortest histories that go idle
     for dangling in [None, Some(7u32)] {
-        work.push((1, dangling, 0, true, false));
+        work.push((1, dangling, 0, true, false, 0));
     }
     let mut acc = par_for(work.len(), |ix, acc| {
-        let (max, dangling, first, sweep, noisy) = work[ix];
-        if skip_for_replay(run, &format!("c19/max={max}/dangling={dangling:?}/first={first}/sweep={sweep}/noisy={noisy}/")) {
+        let (max, dangling, first, sweep, noisy, slow) = work[ix];
+        if skip_for_replay(run, &format!("c19/max={max}/dangling={dangling:?}/first={first}/sweep={sweep}/noisy={noisy}/slow={slow}/")) {
             return;
         }
         let p = if sweep {
@@ -41,11 +46,12 @@ pub fn run(run: &RunInfo) -> Summary {
                 cancel_menu: vec![Outcome::Ok],
                 eod_menu: (0..=255u8).map(Eod::Abort).collect(),
                 noise: false,
+                delay_ms: 0,
             }
         } else {
             HistParams {
                 max,
-                depth: if noisy { depth - 1 } else { depth },
+                depth: if noisy || slow > 0 { depth - 1 } else { depth },
                 ops: all_ops.clone(),
                 dangling,
                 reservation_menu: vec![Outcome::Ok, Outcome::Abort(0x6c)],
@@ -53,6 +59,7 @@ pub fn run(run: &RunInfo) -> Summary {
                 cancel_menu: vec![Outcome::Ok, Outcome::Abort(0xb4)],
                 eod_menu: vec![Eod::Completion, Eod::StatusCompletion, Eod::Abort(0xa0), Eod::Abort(0x6c), Eod::Abort(0xff)],
                 noise: noisy,
+                delay_ms: slow,
             }
         };
         let st = dbx::explore(if noisy { 1 } else { 0 }, 200_000_000, |ctx| {
@@ -61,7 +68,7 @@ pub fn run(run: &RunInfo) -> Summary {
             if !o.c19.is_empty() {
                 let choices = ctx.choices();
                 acc.violation(viol(
-                    format!("c19/max={max}/dangling={dangling:?}/first={first}/sweep={sweep}/noisy={noisy}/choices={choices:?}"),
+                    format!("c19/max={max}/dangling={dangling:?}/first={first}/sweep={sweep}/noisy={noisy}/slow={slow}/choices={choices:?}"),
                     format!("transactions_max_num = {max}, dangling pre-authorisation at the terminal: {dangling:?}\nhistory:\n  {}\nviolations:\n  {}", o.trace.join("\n  "), o.c19.join("\n  ")),
                     o.trace.len() as u64,
                 ));
@@ -85,6 +92,7 @@ pub fn run(run: &RunInfo) -> Summary {
                     cancel_menu: vec![Outcome::Ok, Outcome::Abort(0xb4)],
                     eod_menu: vec![Eod::Completion, Eod::StatusCompletion, Eod::Abort(0xa0), Eod::Abort(0x6c), Eod::Abort(0xff)],
                     noise: false,
+                    delay_ms: 0,
                 };
                 let (levels, states, transitions, fix) = bfs(&p, 12, &format!("c19/max={max}/dangling={dangling:?}"), |o| &o.c19, &mut acc);
                 acc.count("bfs_states", states as u64);
@@ -117,7 +125,7 @@ pub fn run(run: &RunInfo) -> Summary {
         transitions: acc.get("transitions"),
         traces_validated: execs,
         distinct_nontrivial: acc.get("w_idle_cleanups") + acc.get("w_closed_while_others_open"),
-        rule: format!("real Feig client against the simulated terminal: transactions_max_num 1..=2 x terminal ledger {{no dangling pre-authorisation, one}} x all histories of depth {depth} over begin/commit/cancel x tokens {{A,B}} + read_card, terminal outcomes chosen lazily (reservation: success/abort; commit: completion with status, completion without status, abort; cancel: completion/abort; end-of-day: completion, status+completion, abort A0, 6C, FF); a second pass at depth - 1 with every single deviation of the reply shape of any exchange (no / two intermediate statuses, a print line, an extra status information); a state-deduplicated breadth-first search from every reachable state until no new state appears; plus all 256 end-of-day abort codes on the histories begin;commit and begin;cancel with and without a dangling pre-authorisation. Temporal oracle on the terminal's request log. distinct_nontrivial = steps at which the clean-up rule or the no-end-of-day rule applied"),
+        rule: format!("real Feig client against the simulated terminal: transactions_max_num 1..=2 x terminal ledger {{no dangling pre-authorisation, one}} x all histories of depth {depth} over begin/commit/cancel x tokens {{A,B}} + read_card, terminal outcomes chosen lazily (reservation: success/abort; commit: completion with status, completion without status, abort; cancel: completion/abort; end-of-day: completion, status+completion, abort A0, 6C, FF); a second pass at depth - 1 with every single deviation of the reply shape of any exchange (no / two intermediate statuses, a print line, an extra status information); a pass at depth - 1 against a slow terminal whose every reply packet takes 45 s resp. 59 s (inside the per-packet time-out); a state-deduplicated breadth-first search from every reachable state until no new state appears; plus all 256 end-of-day abort codes on the histories begin;commit and begin;cancel with and without a dangling pre-authorisation. Temporal oracle on the terminal's request log. distinct_nontrivial = steps at which the clean-up rule or the no-end-of-day rule applied"),
         exhaustive: true,
         required_witnesses: vec![
             "the state-deduplicated search reached its fixed point".into(),
